@@ -1,5 +1,6 @@
 """C09 - #if arithmetic of c2mir's preprocessor (sub-obligations: operator evaluation)."""
 from vp.run import Job
+from vp.stage import REPO
 
 ID = 'C09'
 LEVEL = 'proof'
@@ -21,7 +22,7 @@ def pj(o, x):
     if True:
         j = Job('ppeval.%s.%s' % (o, x), H, 'h_pp_%s_%s' % (o, x), defines=({'NDEBUG': None, 'VP_NO_REACH': None} if o in ('mul', 'div', 'mod') else {'NDEBUG': None}), unwind=4, ops=[('rename_def', 'eval', 'eval__real', 'vp_model_eval')], no_standard_checks=True, object_bits=11,
                 solver='z3' if o in ('mul', 'div', 'mod') else 'sat', scope=['run_pp', 'vp_leaf', 'eval'], timeout=600,
-                incdirs=['/repo/c2mir'])
+                incdirs=[REPO + '/c2mir'])
         j.strict_reach = False
         j.count_funcs = {'eval__real', 'eval_binop_operands', 'DLIST_node_t_el', 'DLIST_node_t_head'}
         return j
